@@ -7,15 +7,6 @@ import ApiFu.C08.Lemmas
 
 namespace ApiFu.C08
 
-theorem mem_execSubsOf (g : Gen) (log : List Out) : g ∈ execSubsOf log ↔ Out.exec g .subscription ∈ log := by
-  unfold execSubsOf
-  rw [List.mem_filterMap]
-  constructor
-  · rintro ⟨o, ho, he⟩
-    match o, he with
-    | .exec g' .subscription, he => simp at he; subst he; exact ho
-  · intro h; exact ⟨_, h, rfl⟩
-
 /-- **no_fault** — the second send on the one-slot `closeMessage` channel (which would block its
     goroutine forever) is unreachable: `beginClosing`'s once-guard is the only sender. -/
 theorem no_fault (cfg : Cfg) (evs : List Ev) : (run cfg init evs).fault = false :=
@@ -93,5 +84,38 @@ example :
        .writerStep .outgoing, .writerStep .outgoing, .writerStep .outgoing, .writerStep .outgoing]
     s.handlerClosed = true ∧ stopCount 0 s.log = 1 ∧ Out.exec 0 .subscription ∈ s.log := by
   decide
+
+/-- **closed_tasks_finish** — "no sub-task stays enabled": once the connection is Closed, every
+    subscription goroutine reaches its end within three of its own steps (give up the pending
+    SendData, notice the cancelled context, give up SendComplete) whatever else happens before or in
+    between is irrelevant to it — and a finished goroutine never moves again. This needs fix 03
+    (`cfg.sendFix`): before it the sends block forever on a full buffer (`blocked_sender_forever`). -/
+theorem closed_tasks_finish (cfg : Cfg) (hf : cfg.sendFix = true) (evs : List Ev) :
+    let s := run cfg init evs
+    s.handlerClosed = true → ∀ t ∈ s.tasks,
+      (∃ t', findTask (run cfg s [.subTaskStep t.gen, .subTaskStep t.gen, .subTaskStep t.gen]).tasks t.gen = some t' ∧ t'.pc = .done) := by
+  intro s hc t ht
+  obtain ⟨hctl, hbook⟩ := inv12_reachable cfg evs
+  have hg : writerGone s = true := (hctl.2.2.2.1 hc).2
+  have hcanc := (close_stops_each_once cfg evs hc).2.2.2.2 t ht
+  have hn : (s.tasks.map (·.gen)).Nodup := by
+    have := hbook.2.2.1
+    simpa [absBook, List.map_map, Function.comp_def] using this
+  exact three_steps_done hf hg (findTask_of_mem hn ht) hcanc
+
+/-- A goroutine that has finished takes no further step. -/
+theorem done_task_stutters (cfg : Cfg) (s : Sys) (g : Gen) (t : Task) (h : findTask s.tasks g = some t) (hd : t.pc = .done) :
+    subTaskStep cfg s g = s := by
+  unfold subTaskStep; rw [h]; simp [hd]
+
+/-- **wire_is_prefix_of_queue** — FIFO: at every moment the messages written to the socket are a
+    prefix of the messages accepted by the `outgoing` buffer, and while the write loop is in its
+    main or drain loop the two differ exactly by the buffer's content. Every per-operation
+    statement about the queue order therefore holds for the wire (cut off at some point). -/
+theorem wire_is_prefix_of_queue (cfg : Cfg) (evs : List Ev) :
+    wireOf (run cfg init evs).log <+: enqOf (run cfg init evs).log ∧
+    (writerLive (run cfg init evs).writer = true →
+      enqOf (run cfg init evs).log = wireOf (run cfg init evs).log ++ (run cfg init evs).outgoing) :=
+  wire_prefix cfg evs
 
 end ApiFu.C08
